@@ -4,6 +4,12 @@ package spec
 type C02Side struct {
 	Versioned []int `json:"versioned"` // versions registered through VersionedPlugins
 	Legacy    *int  `json:"legacy"`    // version registered through ProtocolVersion+Plugins (nil = not used)
+	// Overlap (host side): ProtocolVersion names a version that also has its own entry in VersionedPlugins,
+	// and the legacy Plugins field holds the very set object registered under OverlapSetOf (another entry
+	// of VersionedPlugins). The entry of VersionedPlugins is the one in force for that version
+	// (client.go: "VersionedPlugins doesn't conflict").
+	Overlap      *int `json:"overlap,omitempty"`
+	OverlapSetOf *int `json:"overlapSetOf,omitempty"`
 }
 
 func (s C02Side) Set() []int {
